@@ -137,6 +137,19 @@ def run(ctx):
                     thr.append([pathx.desc(a).replace("^", "") for a in nd["a"]])
         ctx.require(thr == [["config", "args.events.debounce.0"]], "R02.7", "debounce-to-throttle", "make_config sets the throttle to the parsed --debounce value",
                     detail=str(thr), fail="the configured debounce does not reach Config::throttle unchanged: %s" % thr)
+        # ... in every mode: each way make_config returns a configuration has passed the throttle call
+        mk2 = ctx.anchor_fn("R02.7", "watchexec_cli::config::make_config")
+        n_ok2 = 0
+        missing2 = []
+        for q in pathx.Enum(interesting=lambda d_: strip_generics(d_).startswith("watchexec::config::Config::"), max_paths=200000).paths(thir.root(mk2)):
+            if q.out in ("ret", "val") and (q.val or "").startswith("Ok{"):
+                n_ok2 += 1
+                names2 = [strip_generics(e[1]).split("::")[-1] for e in q.ev if e[0] == "call"]
+                if "throttle" not in names2:
+                    missing2.append(names2)
+        ctx.require(n_ok2 >= 2 and not missing2, "R02.7", "throttle-set-in-every-mode", "every configuration make_config returns (command mode and --only-emit-events) has the throttle set",
+                    mk2.loc(mk2.line), detail=str(missing2)[:200],
+                    fail="make_config can return a configuration without setting the throttle (calls on that path: %s): --debounce is ignored in that mode" % str(missing2)[:160])
     except Skip:
         pass
 
